@@ -3,6 +3,7 @@ mod breadcrumb;
 mod c07conv;
 mod c08life;
 mod c10;
+mod c11seq;
 mod c12;
 mod c13;
 mod c14;
